@@ -172,9 +172,9 @@ def build_unit(unit, cfg, workdir, extra_roots=()):
         text = em.output(contracts=contracts, loops=unit.loops, prelude=cfg_defs + PRELUDE + '\n'.join(eo) + '\n' + unit.prelude)
     except Abort as a:
         raise Undecided('extraction break in unit %s [%s]: %s' % (unit.name, cfg, a))
-    # contracts that name functions which no longer exist => extraction break (renamed / removed)
-    missing = [cn for cn in unit.contracts if cn not in names and
-               any(w is None or cfg in w.split(',') for w, _ in unit.contracts[cn])]
+    # (a missing enforce target is reported per group; shared include files may carry contracts for functions
+    #  that a given unit does not reach)
+    missing = []
     bu = BuiltUnit()
     bu.unit, bu.cfg, bu.em, bu.text, bu.missing = unit, cfg, em, text, missing
     bu.meta = em.meta()
